@@ -12,10 +12,13 @@ import (
 	"go/printer"
 	"go/token"
 	"go/types"
+	"io"
+	"log"
 	mathrand "math/rand"
 	"os"
 	"path/filepath"
 	"regexp"
+	"runtime/debug"
 	"sort"
 	"strings"
 
@@ -50,6 +53,7 @@ type c11VarResult struct {
 	Sites  []string `json:"sites,omitempty"`
 	Dir    string   `json:"dir,omitempty"`
 	Digest string   `json:"digest,omitempty"`
+	Rejected map[string]string `json:"rejected,omitempty"`
 }
 
 var c11Importer types.ImporterFrom
@@ -58,7 +62,7 @@ func c11RunVariant(job *c11Job, v c11Variant) (res c11VarResult) {
 	res.ID = v.ID
 	defer func() {
 		if r := recover(); r != nil {
-			res.Err = fmt.Sprintf("panic: %v", r)
+			res.Err = fmt.Sprintf("panic: %v\n%s", r, c11TrimStack(debug.Stack()))
 		}
 	}()
 	fset = token.NewFileSet() // garble's package-level file set
@@ -111,13 +115,60 @@ func c11RunVariant(job *c11Job, v c11Variant) (res c11VarResult) {
 	}
 	sc := newVerifScript(v.Base, over, v.Record, "garble/internal/ctrlflow.", "garble/internal/ssa2ast.")
 	mathrand.Seed(v.GSeed) // the process-global source: obfuscation must not depend on it
-	newName, newFile, _, err := ctrlflow.Obfuscate(fset, ssaPkg, files, mathrand.New(sc))
+	rnd := mathrand.New(sc)
+	// One Obfuscate call per function (sharing the random stream, as one call over all functions would), so that a
+	// function garble rejects - with an error or by crashing - does not hide the others of the same variant.
+	type saved struct {
+		fd   *ast.FuncDecl
+		doc  *ast.CommentGroup
+		name *ast.Ident
+		body *ast.BlockStmt
+		recv *ast.FieldList
+		typ  *ast.FuncType
+	}
+	var targets []saved
+	for _, f := range files {
+		for _, d := range f.Decls {
+			if fd, ok := d.(*ast.FuncDecl); ok && fd.Doc != nil {
+				for _, c := range fd.Doc.List {
+					if strings.HasPrefix(c.Text, "//garble:controlflow") {
+						targets = append(targets, saved{fd, fd.Doc, fd.Name, fd.Body, fd.Recv, fd.Type})
+						fd.Doc = nil
+						break
+					}
+				}
+			}
+		}
+	}
+	res.Rejected = map[string]string{}
+	newFiles := map[string]*ast.File{}
+	for _, t := range targets {
+		t.fd.Doc = t.doc
+		fname := t.name.Name
+		sc.mark = sc.n
+		func() {
+			defer func() {
+				if r := recover(); r != nil {
+					res.Rejected[fname] = fmt.Sprintf("panic: %v | %s", r, c11TrimStack(debug.Stack()))
+				}
+			}()
+			_, newFile, _, err := ctrlflow.Obfuscate(fset, ssaPkg, files, rnd)
+			if err != nil {
+				res.Rejected[fname] = "error: " + err.Error()
+				return
+			}
+			if newFile != nil {
+				newFiles["GARBLE_controlflow_"+fname+".go"] = newFile
+			}
+		}()
+		if _, bad := res.Rejected[fname]; bad {
+			// put the original function back
+			t.fd.Name, t.fd.Body, t.fd.Recv, t.fd.Type = t.name, t.body, t.recv, t.typ
+		}
+		t.fd.Doc = nil
+	}
 	res.Draws = sc.n
 	res.Sites = sc.sites
-	if err != nil {
-		res.Err = "obfuscate: " + err.Error()
-		return
-	}
 	dir := filepath.Join(job.OutDir, v.ID)
 	os.MkdirAll(dir, 0o755)
 	var all bytes.Buffer
@@ -132,18 +183,18 @@ func c11RunVariant(job *c11Job, v c11Variant) (res c11VarResult) {
 		return os.WriteFile(filepath.Join(dir, name), buf.Bytes(), 0o644)
 	}
 	for i, f := range files {
-		for _, d := range f.Decls {
-			if fd, ok := d.(*ast.FuncDecl); ok {
-				fd.Doc = nil
-			}
-		}
 		if err := write(names[i], f); err != nil {
 			res.Err = "print: " + err.Error()
 			return
 		}
 	}
-	if newFile != nil {
-		if err := write(newName, newFile); err != nil {
+	var nfNames []string
+	for n := range newFiles {
+		nfNames = append(nfNames, n)
+	}
+	sort.Strings(nfNames)
+	for _, n := range nfNames {
+		if err := write(n, newFiles[n]); err != nil {
 			res.Err = "print: " + err.Error()
 			return
 		}
@@ -163,6 +214,7 @@ func init() {
 		}
 		sharedCache = &sharedCacheType{}
 		sharedCache.GoEnv.GOARCH = "amd64"
+		log.SetOutput(io.Discard)
 		var out []c11VarResult
 		for _, v := range job.Variants {
 			out = append(out, c11RunVariant(&job, v))
@@ -172,3 +224,16 @@ func init() {
 }
 
 var _ = strings.TrimSpace
+
+func c11TrimStack(b []byte) string {
+	var keep []string
+	for _, l := range strings.Split(string(b), "\n") {
+		if strings.Contains(l, "garble/internal/") || strings.Contains(l, "/repo/") {
+			keep = append(keep, strings.TrimSpace(l))
+		}
+	}
+	if len(keep) > 12 {
+		keep = keep[:12]
+	}
+	return strings.Join(keep, " | ")
+}
